@@ -92,6 +92,16 @@ CHECKS["C17"] = (
     "DESIGN.md section 6, C17",
 )
 
+CHECKS["C01"] = (
+    "Hypothesis-generated fits and parameter documents; round-trip (bit-exact) and reference-formula oracles",
+    "Generated-input search over fitted models of all four families under many constructor profiles (stored, reloaded, predicted on "
+    "several reporting sets incl. temperatures outside the fitted range: bit-identical frames, idempotent documents, timezone / "
+    "warnings / disqualifications kept) and over thousands of parameter documents (7 shapes x 48 split layouts x calendar maps) whose "
+    "predictions must equal the documented formula evaluated from the JSON alone.",
+    "Trusted: vf/ref/daily_curve.py; documents compared as parsed JSON (key order and 12 vs 12.0 are not semantic).",
+    "DESIGN.md section 6, C01",
+)
+
 PENDING_REASON = "check not built yet in this session (work in progress; property-based testing applies and is planned, see DESIGN.md section 6)"
 
 
